@@ -58,7 +58,7 @@ class Mon(E.Monitor):
             acc.c["nt_backtracks_reenabling"] += 1
 
 
-LIMIT = {"quick": 81, "thorough": 300}
+LIMIT = {"quick": 36, "thorough": 300}
 
 
 def eligible(spec, tier="thorough"):
@@ -100,7 +100,7 @@ def unit(u):
 def run(tier, seed):
     t0 = time.time()
     acc = propmc.run(PROP, tier, seed, types=sorted(ENTAILING))
-    fams = ("F1", "F2", "F3", "F4")
+    fams = ("F1", "F2", "F3", "F4", "F5")
     eng, nspecs = SC.run_units(unit, tier, seed, fams, chunk=20, filt=lambda s: eligible(s, tier))
     acc.merge(eng)
     cov = {
